@@ -41,6 +41,9 @@ def products(alpha, maxlen, shard, nshards, minlen=0):
 KEYWORDS = ("auto break case char const continue default do double else enum extern float for goto if int "
             "long register return short signed sizeof static struct switch typedef union unsigned void "
             "volatile while inline NULL restrict").split()
+# identifiers that merely contain or resemble a keyword: still identifiers, spelt as written
+NEAR_KEYWORDS = [f % k for k in KEYWORDS for f in ("__%s", "__%s__", "_%s", "%s_", "%sx", "x%s", "%s1")] + [k.upper() for k in KEYWORDS if k != "NULL"] + \
+                ["__attribute__", "__asm__", "__typeof__", "__extension__", "_Bool", "_Alignas", "__func__", "null", "Null"]
 OPERATORS = [">>=", "<<=", "...", "->", "++", "--", "<<", ">>", "<=", ">=", "==", "!=", "&&", "||", "+=", "-=",
              "*=", "/=", "%=", "&=", "|=", "^=", "+", "-", "*", "/", "%", "<", ">", "=", "!", "&", "|", "^", "~",
              "?", ":", ";", ",", ".", "#"]
@@ -86,7 +89,7 @@ def soup(r, n=None, bad=0.06, splice=0.08, opener=0.02):
             if k == 0:
                 out.append(ident(r))
             elif k == 1:
-                out.append(r.choice(KEYWORDS))
+                out.append(r.choice(KEYWORDS if r.random() < 0.6 else NEAR_KEYWORDS))
             elif k == 2:
                 out.append(r.choice(OPERATORS))
             elif k == 3:
